@@ -81,6 +81,7 @@ class Map(
                     temp_st, getattr(value_field, "_name")
                 )
                 value = res
+            self.validate_size(value, self._name)
 
         super().__set__(instance, _DictStruct(self, instance, value, self._name))
 
